@@ -76,6 +76,50 @@ func isStringList(r json.RawMessage) bool {
 	return true
 }
 
+// ValidateGetResult checks the result of a successful get response of a resource of the
+// given type ("model" or "collection"): a model is a JSON object, a collection a JSON
+// array (never null), an optional query is a non-empty string, and nothing else is there.
+func ValidateGetResult(data []byte, typ string) []string {
+	m, err := decodeObject(data)
+	if err != nil {
+		return []string{"response is not a JSON object"}
+	}
+	res, ok := m["result"]
+	if !ok {
+		return nil // an error or resource response: not a get result
+	}
+	ro, err := decodeObject(res)
+	if err != nil {
+		return []string{"get result is not an object"}
+	}
+	var probs []string
+	v, ok := ro[typ]
+	if !ok {
+		probs = append(probs, "get result has no "+typ+" member")
+	} else {
+		t := bytes.TrimSpace(v)
+		switch {
+		case typ == "model" && (len(t) == 0 || t[0] != '{'):
+			probs = append(probs, "model is not a JSON object")
+		case typ == "collection" && (len(t) == 0 || t[0] != '['):
+			probs = append(probs, "collection is not a JSON array")
+		}
+	}
+	for k, x := range ro {
+		switch k {
+		case typ:
+		case "query":
+			var q string
+			if json.Unmarshal(x, &q) != nil || q == "" {
+				probs = append(probs, "query is not a non-empty string")
+			}
+		default:
+			probs = append(probs, "unexpected get result member "+k)
+		}
+	}
+	return probs
+}
+
 // ValidateResponse checks a response payload. isHTTP tells whether the request
 // was flagged as HTTP (only then meta is allowed).
 func ValidateResponse(data []byte, isHTTP bool) []string {
